@@ -209,13 +209,13 @@ theorem query_spec {cfg : Sites} {m : Mask} (ht : m.typ ≠ .invalid) (hia : m.i
     simp only [Res.ok.injEq] at h
     subst h
     unfold fdGet at hfm
-    rw [Res.bind_eq_ok] at hfm
-    obtain ⟨_, _, hfm⟩ := hfm
     congr 1
     split at hfm
     · rename_i hfa
       split at hfm
-      · simp at hfm
+      · rw [Res.bind_eq_ok] at hfm
+        obtain ⟨_, _, hfm⟩ := hfm
+        simp at hfm
       · have hnil : m.fd = .nil := by
           cases hfd with
           | inl h1 => simp [h1] at hfa
@@ -223,7 +223,9 @@ theorem query_spec {cfg : Sites} {m : Mask} (ht : m.typ ≠ .invalid) (hia : m.i
         simp only [Res.ok.injEq] at hfm
         subst hfm
         simp [QStep.toP, Mask.kid, hnil, Kids.get]
-    · simp only [Res.ok.injEq] at hfm
+    · rw [Res.bind_eq_ok] at hfm
+      obtain ⟨_, _, hfm⟩ := hfm
+      simp only [Res.ok.injEq] at hfm
       subst hfm
       simp only [QStep.toP, Mask.kid, Kids.getExist]
       cases m.fd.get (.i id) <;> rfl
@@ -250,7 +252,7 @@ theorem walk_cons {cfg : Sites} {cur : MaskOpt} {s : QStep} {qs : List QStep} {b
 /-- **queries answer as the path set prescribes**, at any node of a trie satisfying `Rep` -/
 theorem walk_rep {cfg : Sites} {sch : Schema} {black : Bool} :
     ∀ (q : List QStep) (d : Ty) (m : Mask) (P : List APath) (b : Bool),
-      Rep sch black d m P → (black = true → NoTerminalStar P = true) →
+      Rep sch black d m P → (black = true → cfg.blackStar = true → NoTerminalStar P = true) →
       (q ≠ [] ∨ m.hasChild = true ∨ black = false) →
       walk cfg (.some m) q = .ok b → b = SelN black P q := by
   intro q
@@ -277,7 +279,10 @@ theorem walk_rep {cfg : Sites} {sch : Schema} {black : Bool} :
       simp only [ht, hia, ↓reduceIte, Res.ok.injEq, Prod.mk.injEq] at hq
       obtain ⟨rfl, rfl⟩ := hq
       obtain ⟨_, _, _, h4, h5, h6⟩ := hnk
-      simp only [Mask.hasChild_def, hal, h4, h5, h6, hb] at hw
+      have hp : m.passAll cfg = false := by
+        unfold Mask.passAll
+        cases cfg.blackStar <;> simp [Mask.hasChild_def, hal, h4, h5, h6]
+      simp only [hp, hal, hb] at hw
       cases black with
       | false => simp [walk_none] at hw; simp [hw]
       | true => simp at hw; simp [hw]
@@ -287,16 +292,42 @@ theorem walk_rep {cfg : Sites} {sch : Schema} {black : Bool} :
       simp only [ht, hia, ↓reduceIte, Res.ok.injEq, Prod.mk.injEq] at hq
       obtain ⟨rfl, rfl⟩ := hq
       have hhc : m.hasChild = true := by simp [Mask.hasChild_def, hal, ht]
-      simp only [hhc, Bool.or_true, ↓reduceIte, hal] at hw
-      apply ih cu.2 a (P.map List.tail) b hr _ _ hw
-      · intro hbk
-        exact (NoTerminalStar_tails_star hs hall (hnts hbk)).1
-      · cases black with
-        | false => right; right; rfl
+      have hnts' : ∀ hbk : black = true, cfg.blackStar = true → NoTerminalStar (P.map List.tail) = true :=
+        fun hbk hbs => (NoTerminalStar_tails_star hs hall (hnts hbk hbs)).1
+      cases black with
+      | false =>
+        simp only [hb, Bool.not_false, Bool.true_or, ↓reduceIte, hal] at hw
+        exact ih cu.2 a (P.map List.tail) b hr hnts' (by right; right; rfl) hw
+      | true =>
+        cases hbs : cfg.blackStar with
         | true =>
+          simp only [Mask.passAll, hbs, hhc, Bool.or_true, ↓reduceIte, hal] at hw
+          apply ih cu.2 a (P.map List.tail) b hr hnts' _ hw
           right; left
-          rw [hr.hasChild_iff, (NoTerminalStar_tails_star hs hall (hnts rfl)).2]
+          rw [hr.hasChild_iff, (NoTerminalStar_tails_star hs hall (hnts rfl hbs)).2]
           rfl
+        | false =>
+          simp only [Mask.passAll, hbs, Bool.false_eq_true, ↓reduceIte, hal, hb, Bool.not_true, Bool.false_or] at hw
+          cases hch : a.hasChild with
+          | true =>
+            simp only [hch, ↓reduceIte] at hw
+            exact ih cu.2 a (P.map List.tail) b hr hnts' (by right; left; exact hch) hw
+          | false =>
+            simp only [hch, Bool.false_eq_true, ↓reduceIte, Res.ok.injEq] at hw
+            subst hw
+            have hany : (P.map List.tail).any List.isEmpty = true := by
+              have := hr.hasChild_iff
+              rw [hch] at this
+              simpa using this.symm
+            unfold SelN
+            simp only [↓reduceIte]
+            rw [List.any_eq_true] at hany
+            obtain ⟨t, ht1, ht2⟩ := hany
+            have : t = [] := by simpa using ht2
+            subst this
+            have : (P.map List.tail).any (covers · qs) = true := by
+              rw [List.any_eq_true]; exact ⟨[], ht1, by simp [covers]⟩
+            simp [this]
     | spec ht hb hne hall hia hhc hfd hkind hnd hno hyes hrec =>
       rw [SelN_spec hall]
       have hr := query_spec ht hia hfd s _ hq
@@ -350,7 +381,7 @@ theorem walk_rep {cfg : Sites} {sch : Schema} {black : Bool} :
             simp [this]
           | true =>
             simp only [hch, ↓reduceIte] at hw
-            exact ih cu.2 c _ b hrc (fun _ => NoTerminalStar_tailsOf hks (hnts rfl)) (by right; left; exact hch) hw
+            exact ih cu.2 c _ b hrc (fun _ hbs => NoTerminalStar_tailsOf hks (hnts rfl hbs)) (by right; left; exact hch) hw
 
 
 /-! ## Part 2a: the conflict relation -/
@@ -2061,7 +2092,8 @@ theorem next_suffix {cfg : Sites} {p r : Bytes} {t : Tok} (h : next cfg p = .ok 
     split at h
     · simp only [Res.ok.injEq, Prod.mk.injEq] at h; rw [← h.2]; exact hc
     split at h
-    · simp only at h
+    · unfold nextStr at h
+      simp only at h
       split at h
       · unfold siteStrSlice siteErrTok at h
         split at h
@@ -2072,9 +2104,12 @@ theorem next_suffix {cfg : Sites} {p r : Bytes} {t : Tok} (h : next cfg p = .ok 
           split at h <;> simp at h
         · simp only [Res.ok.injEq, Prod.mk.injEq] at h; rw [← h.2]; exact List.drop_suffix _ _
     · have hl := litSpan_suffix (c :: r0)
+      unfold nextLit at h
       split at h
       rename_i v rest hls
       rw [hls] at hl
+      split at h
+      · simp only [Res.ok.injEq, Prod.mk.injEq] at h; rw [← h.2]; exact hc
       split at h
       · rw [Res.bind_eq_ok] at h
         obtain ⟨n, _, h⟩ := h
@@ -2483,13 +2518,17 @@ theorem next_panic {cfg : Sites} {r : Bytes} {s : Site} (h : next cfg r = .panic
     split at h
     · simp at h
     split at h
-    · simp only at h
+    · unfold nextStr at h
+      simp only at h
       split at h
       · exact siteStrSlice_panic h
       · split at h
         · obtain ⟨rfl, hc⟩ := siteErrTok_panic h; exact hc
         · simp at h
-    · split at h
+    · unfold nextLit at h
+      split at h
+      split at h
+      · simp at h
       split at h
       · rw [Res.bind_eq_panic] at h
         rcases h with h | ⟨_, _, h⟩
@@ -2525,17 +2564,21 @@ theorem query_panic {cfg : Sites} {cur : MaskOpt} {q : QStep} {s : Site} (h : qu
       rw [Res.bind_eq_panic] at h
       rcases h with h | ⟨_, _, h⟩
       · unfold fdGet at h
-        rw [Res.bind_eq_panic] at h
-        rcases h with h | ⟨_, _, h⟩
-        · obtain ⟨h1, h2, h3⟩ := siteHead_panic h
-          exact ⟨id, rfl, Or.inl ⟨h1, h2, h3⟩⟩
-        · split at h
-          · rename_i hfa
-            split at h
-            · rename_i hc
-              simp only [Res.panic.injEq] at h
+        split at h
+        · rename_i hfa
+          split at h
+          · rename_i hc
+            rw [Res.bind_eq_panic] at h
+            rcases h with h | ⟨_, _, h⟩
+            · obtain ⟨h1, h2, h3⟩ := siteHead_panic h
+              exact ⟨id, rfl, Or.inl ⟨h1, h2, h3⟩⟩
+            · simp only [Res.panic.injEq] at h
               exact ⟨id, rfl, Or.inr ⟨h.symm, hc, m, rfl, by simpa using hfa⟩⟩
-            · simp at h
+          · simp at h
+        · rw [Res.bind_eq_panic] at h
+          rcases h with h | ⟨_, _, h⟩
+          · obtain ⟨h1, h2, h3⟩ := siteHead_panic h
+            exact ⟨id, rfl, Or.inl ⟨h1, h2, h3⟩⟩
           · simp at h
       · simp at h
     · simp at h
@@ -2792,7 +2835,7 @@ theorem gpLoop_panic {cfg : Sites} {sch : Schema} {s : Site} : ∀ (f : Nat) (la
       · have via : ∀ (fd : FieldD) (rest2 : Bytes), (do
               let __x ← query cfg cur (QStep.field (int16wrap fd.id))
               match __x with
-                | (fm, ex) => if (!ex) = true then Res.ok (MaskOpt.none, false) else gpLoop cfg sch f cur fm rest2 fd.ty) = .panic s →
+                | (fm, ex) => if (!ex) = true then Res.ok (MaskOpt.none, false) else gpLoop cfg sch f cur fm rest2 (sch.gpDesc cfg fd.ty)) = .panic s →
             cfg.enabled s = true := by
           intro fd rest2 h
           rw [Res.bind_eq_panic] at h
@@ -2858,7 +2901,13 @@ theorem getPath_panic {cfg : Sites} {sch : Schema} {m : MaskOpt} {desc : Ty} {pa
 def Progress (cfg : Sites) (p0 : Bytes) : Prop :=
   ∀ r, r <:+ p0 → ∀ t r', next cfg r = .ok (t, r') → r ≠ [] → r'.length < r.length
 
+theorem Res.bind_eq_crash {α β} {x : Res α} {f : α → Res β} :
+    (x >>= f) = .crash ↔ x = .crash ∨ ∃ a, x = .ok a ∧ f a = .crash := by
+  cases x <;> simp
+
 theorem query_ne_crash {cfg : Sites} {cur : MaskOpt} {q : QStep} : query cfg cur q ≠ .crash := by
+  have hsite : ∀ id, siteHead cfg id ≠ .crash := by
+    intro id; unfold siteHead; split <;> simp
   unfold query
   split
   · simp
@@ -2867,36 +2916,73 @@ theorem query_ne_crash {cfg : Sites} {cur : MaskOpt} {q : QStep} : query cfg cur
     split
     · simp
     split
-    · unfold fdGet siteHead
-      split <;> simp
-      split
-      · split <;> simp
-      · simp
+    · unfold fdGet
+      intro h
+      rw [Res.bind_eq_crash] at h
+      rcases h with h | ⟨_, _, h⟩
+      · split at h
+        · split at h
+          · rw [Res.bind_eq_crash] at h
+            rcases h with h | ⟨_, _, h⟩
+            · exact hsite _ h
+            · simp at h
+          · simp at h
+        · rw [Res.bind_eq_crash] at h
+          rcases h with h | ⟨_, _, h⟩
+          · exact hsite _ h
+          · simp at h
+      · simp at h
     · simp
     · simp
 
-theorem Res.bind_eq_crash {α β} {x : Res α} {f : α → Res β} :
-    (x >>= f) = .crash ↔ x = .crash ∨ ∃ a, x = .ok a ∧ f a = .crash := by
-  cases x <;> simp
+theorem siteErrTok_ne_crash {cfg : Sites} {α} : (siteErrTok cfg : Res α) ≠ .crash := by
+  unfold siteErrTok; split <;> simp
 
 theorem next_ne_crash {cfg : Sites} {r : Bytes} : next cfg r ≠ .crash := by
   cases r with
   | nil => simp [next]
   | cons c r0 =>
     rw [next]
-    repeat' split
-    all_goals try simp
-    all_goals try (unfold siteStrSlice siteErrTok; repeat' split)
-    all_goals try simp
-    all_goals try (unfold siteErrTok; split <;> simp)
-    all_goals
-      intro h
-      rw [Res.bind_eq_crash] at h
-      rcases h with h | ⟨_, _, h⟩
-      · unfold siteAtoi at h
-        repeat' split at h
-        all_goals simp at h
-      · simp at h
+    split
+    · simp
+    split
+    · simp
+    split
+    · simp
+    split
+    · simp
+    split
+    · simp
+    split
+    · simp
+    split
+    · simp
+    split
+    · simp
+    split
+    · unfold nextStr
+      simp only
+      split
+      · unfold siteStrSlice
+        split
+        · simp
+        · exact siteErrTok_ne_crash
+      · split
+        · exact siteErrTok_ne_crash
+        · simp
+    · unfold nextLit
+      split
+      split
+      · simp
+      split
+      · intro h
+        rw [Res.bind_eq_crash] at h
+        rcases h with h | ⟨_, _, h⟩
+        · unfold siteAtoi at h
+          repeat' split at h
+          all_goals simp at h
+        · simp at h
+      · simp
 
 theorem gpIndex_total {cfg : Sites} {cur : Mask} {p0 : Bytes} (hp : Progress cfg p0) : ∀ (f : Nat) (rest : Bytes) (nxt : MaskOpt),
     rest <:+ p0 → rest.length < f →
@@ -3055,7 +3141,7 @@ theorem gpLoop_total {cfg : Sites} {sch : Schema} {p0 : Bytes} (hp : Progress cf
         have via : ∀ (fd : FieldD), (do
               let __x ← query cfg cur (QStep.field (int16wrap fd.id))
               match __x with
-                | (fm, ex) => if (!ex) = true then Res.ok (MaskOpt.none, false) else gpLoop cfg sch f cur fm rest2 fd.ty) ≠ .crash := by
+                | (fm, ex) => if (!ex) = true then Res.ok (MaskOpt.none, false) else gpLoop cfg sch f cur fm rest2 (sch.gpDesc cfg fd.ty)) ≠ .crash := by
           intro fd h
           rw [Res.bind_eq_crash] at h
           rcases h with h | ⟨⟨fm, ex⟩, _, h⟩
